@@ -2,6 +2,7 @@ package main
 
 import (
 	"math"
+	"math/big"
 
 	"vharness/kit"
 )
@@ -107,6 +108,14 @@ func genConstPoint(r *kit.Rng, freq, per int64) (elapsed int64, hits uint64) {
 		hits = math.MaxUint64 - uint64(r.Range(0, 2))
 	case 6:
 		hits = uint64(r.Int64Edge())
+		if freq > 0 && per > freq && r.Chance(0.6) {
+			// where ceil((hits+1)·per/freq) crosses 2^64 (the 128-bit quotient no longer fits 64 bits)
+			q := new(big.Int).Lsh(big.NewInt(freq), 64)
+			q.Div(q, big.NewInt(per))
+			if q.IsUint64() {
+				hits = q.Uint64() + d
+			}
+		}
 	default:
 		hits = uint64(r.Range(0, 1<<uint(r.Pick(40)+1)))
 	}
@@ -250,9 +259,45 @@ func genLinearRealistic(r *kit.Rng) *in {
 	return x
 }
 
+// genLinearGuard: a slow start rate and hit counts around the overflow guard MaxInt64/interval.
+func genLinearGuard(r *kit.Rng) *in {
+	x := &in{Pacer: "linear"}
+	x.Freq = r.Range(1, 3)
+	x.Per = maxI64/r.Range(1, 1000) - r.Range(0, 5)
+	if r.Chance(0.5) {
+		x.Per = r.PickI64(units[3:]) * r.Range(1, 1000)
+	}
+	x.SlopeBits = math.Float64bits(0)
+	if r.Chance(0.3) {
+		x.SlopeBits = math.Float64bits(r.Float64() * 1e-12)
+	}
+	x.setText()
+	interval := math.Round(float64(x.Per) / float64(x.Freq))
+	x.Elapsed = r.Range(0, 1000)
+	q := uint64(float64(maxI64) / interval)
+	switch r.Pick(4) {
+	case 0:
+		x.Hits = q + uint64(r.Range(0, 4)) - 2
+	case 1:
+		x.Hits = q*uint64(r.Range(2, 5)) + uint64(r.Range(0, 3))
+	case 2:
+		x.Hits = q + uint64(r.Range(1, 1000000))
+	default:
+		x.Hits = uint64(r.Range(1, 1<<uint(r.Pick(62)+1)))
+	}
+	if x.Hits == 0 {
+		x.Hits = 1
+	}
+	return x
+}
+
 func genLinearExtreme(r *kit.Rng) *in {
 	x := &in{Pacer: "linear"}
 	x.Freq, x.Per = r.Int64Edge(), r.Int64Edge()
+	if r.Chance(0.15) { // zero and negative fields
+		x.Freq = r.PickI64([]int64{0, -1, 1, -7, 50, math.MinInt64})
+		x.Per = r.PickI64([]int64{0, -1, 1000000000, -1000000000, math.MinInt64})
+	}
 	if r.Chance(0.5) {
 		x.Freq, x.Per = r.Range(1, 100000), r.PickI64(units)
 	}
